@@ -40,6 +40,8 @@ class DAC_BVLS;
 namespace cds_static { class BitSequence; class Sequence; }
 
 struct State {
+  bool noisolate = false;
+  unsigned query_timeout = 10;
   // C17
   LogSequence *ls = nullptr;
   DAC_VLS *dac = nullptr;
